@@ -163,8 +163,9 @@ def run(tier, seed, replay=None):
             # a method whose late-bound lifetime is named in the trait / the first block and elided elsewhere (seeded change C14f:
             # an arity check on fn generics would reject it)
             p.items.append(("elfn", "lbl", False))
-        if p.mode == "trait" and rng.random() < 0.3:
-            # one item written once per `cfg` alternative inside a block (seeded change C14i: "given more than once")
+        if rng.random() < 0.3:
+            # one item written once per `cfg` alternative inside a block, trait and inherent mode (seeded change C14i: "given more than once";
+            # defect D56: the first inherent block)
             p.items.append(("cfgdup", "cfgd", False))
         if p.mode == "trait" and rng.random() < 0.35:
             # `-> impl Future` in the trait, `async fn` in some blocks (seeded change C14h: a qualifier comparison would reject it)
